@@ -11,7 +11,7 @@ tvars == <<toks, raw, nxt, cur, saved, ret, reads, l>>
 tview == <<toks, raw, nxt, cur, saved, l>>
 
 E == Trace[l]
-PredOf(m) == CASE m = "none" -> {} [] m = "X" -> {"X"} [] m = "N" -> {"N"} [] OTHER -> {"E", "X"}
+PredOf(m) == CASE m = "none" -> {} [] m = "X" -> {"X"} [] m = "N" -> {"N"} [] m = "NX" -> {"N", "X"} [] OTHER -> {"E", "X"}
 \* the logged observations must agree with the state the specification's action reaches
 Observed == raw' = E.raw /\ cur' = E.cur /\ nxt' = E.peek
 
